@@ -166,7 +166,17 @@ class Expected:
 
     def apply(self, rule):
         par, scope, value = rule
-        if par == "length":
+        if par == "__time_het__":
+            # every rate parameter that is not excluded gets the given value on each listed edge set
+            names = [p for p in self.pnames if p not in (scope.get("exclude_params") or [])]
+            sets = scope.get("edge_sets") or [{"edges": [e]} for e in self.edges]
+            for es in sets:
+                v = es.get("init", value)
+                for p in names:
+                    for e in es["edges"]:
+                        for b in self.bins:
+                            self.par[(p, e, b)] = float(v)
+        elif par == "length":
             for e in _rule_edges(self.tree, scope):
                 self.length[e] = float(value)
         elif par == "bprobs":
@@ -282,6 +292,10 @@ def build_lf(case):
 
 def apply_rule(lf, rule):
     par, scope, value = rule
+    if par == "__time_het__":
+        kw = {k: ([dict(d) for d in v] if k == "edge_sets" else v) for k, v in scope.items()}
+        lf.set_time_heterogeneity(init=value, **kw)
+        return
     kw = {k: v for k, v in scope.items() if k != "independent"}
     if "independent" in scope:
         kw["is_independent"] = scope["independent"]
@@ -395,6 +409,11 @@ def run_case(case, cname):
     for i, upd in enumerate(case.get("updates", [])):
         try:
             for rule in upd:
+                if rule[0] == "alignment":       # the same lf is given another alignment
+                    from cogent3 import make_aligned_seqs
+                    rows = alignment_rows(dict(case, aln=rule[2]))
+                    lf.set_alignment(make_aligned_seqs(rows, moltype="protein" if exp.family == "protein" else "dna"))
+                    continue
                 apply_rule(lf, rule)
                 exp.apply(rule)
         except Exception as e:
@@ -606,6 +625,11 @@ def gen_nucleotide(tier, seed):
                             p0 = sorted(params)[i % len(params)]
                             upd.append([p0, {}, round(params[p0] * 1.7 + 0.1, 4)])
                         case["updates"] = [upd]
+                    if i % 9 == 5:
+                        case.setdefault("updates", []).append(
+                            [["alignment", {}, {"words": list("TGCARN-"), "stride": 1 if ntips <= 3 else 11, "dup": 5}]])
+                    if i % 9 == 7 and pi and case["pi_via"] == "lf":
+                        case.setdefault("updates", []).append([["mprobs", {}, PI_NUC[(PI_NUC.index(pi) + 1) % 3]]])
                     if i % 4 == 1:
                         case["aln_first"] = True
                     if i % 6 == 2:
@@ -757,7 +781,27 @@ def gen_scoped(tier, seed):
                         "aln": aln}
                 if i % 3 == 0:
                     case["updates"] = [[[par, scopes[(i * 3) % len(scopes)], pvals[(i + 1) % 5]]]]
+                if i % 7 == 0:
+                    case["rules"].append(["length", {"independent": False}, 0.3])
                 yield case
+        # set_time_heterogeneity: all (but the excluded) rate parameters, per edge set
+        for model in ("HKY85", "TN93", "GTR", "GN"):
+            names = MODELS[model][3]
+            for j, c in enumerate(itertools.combinations(edges, 2)):
+                i += 1
+                if not thorough and j % 3:
+                    continue
+                rest = [e for e in edges if e not in c]
+                th = {"edge_sets": [{"edges": list(c)}, {"edges": rest[:2], "init": pvals[(j + 1) % 5]}]}
+                if len(names) > 1 and j % 2:
+                    th["exclude_params"] = [names[-1]]
+                if j % 4 == 0:
+                    th["is_independent"] = True
+                rules = [[p, {}, 1.0 + 0.5 * (n % 3)] for n, p in enumerate(names)]
+                rules.append(["__time_het__", th, pvals[j % 5]])
+                if j % 5 == 0:
+                    rules.append(["__time_het__", {}, 2.2])         # no edge sets: every edge on its own
+                yield {"model": model, "tree": tr, "len_via": "tree", "pi": PI_NUC[1 + j % 2], "rules": rules, "aln": aln}
 
 
 def contract_scoped(case):
@@ -904,7 +948,7 @@ def gen_codon(tier, seed):
             tree = S.parse_newick(tr)
             ntips = len(S.tip_names(tree))
             edges = S.edge_names(tree)
-            for salt in range(2 if thorough else 1):
+            for salt in range(3 if thorough else 1):
                 for om in ((0.25, 2.0) if thorough else (0.25,)):
                     i += 1
                     pi = PI_NUC[1 + salt % 2] if MODELS[model][2] == "nuc" else _pseudo_probs(states, salt + 3)
@@ -1050,8 +1094,13 @@ BOUNDED = {
                  "special (+12 random, thorough); models JC69 F81 K80 HKY85 TN93 GTR GN ssGN x 3-4 parameter settings x "
                  "3 motif-probability vectors (rotated through in quick, partly crossed in thorough); every column over "
                  "ACGTNRY- for <=3 tips (4 and 5 tips: every 3rd / 29th column in quick, all 4096 / 32768 in thorough), "
-                 "with repeated out-of-order columns; every third case re-evaluated after changing a length and a rate "
-                 "parameter",
+                 "with repeated out-of-order columns; every IUPAC symbol ACGTRYMKSWBDHVN-? on 2-3 tips; every third case "
+                 "re-evaluated after changing a length and a rate parameter, some after replacing the alignment or the "
+                 "motif probs; call-shape variants: lengths through the tree or through rules, motif probs through the "
+                 "model or the lf, alignment before/after motif probs, Alignment/ArrayAlignment, reversed sequence "
+                 "order, other tip names, unnamed internal nodes; thorough: + 1200 seeded random cases on random trees "
+                 "with 6-8 tips (polytomies, random lengths incl. 0), log-uniform parameters in [0.05,20], random motif "
+                 "probs, 60 random columns over all IUPAC symbols",
         "rule": "a case = (model, tree with lengths, parameter rules, motif probs, alignment description); non-trivial "
                 "when some branch length is positive; distinct by hash of the case",
     },
@@ -1075,7 +1124,9 @@ BOUNDED = {
                       "PhyloNode.get_edge_names (clade / stem scopes)"],
         "bound": "4 trees (4-5 tips, rooted/unrooted/nested/star); a rate parameter of HKY85 GTR GN TN93 ssGN overridden "
                  "on every single edge, every pair of edges, (every 4th) triple of edges, and every clade/stem scope of "
-                 "every tip pair; optional second overlapping override, constant override, is_independent, and update",
+                 "every tip pair, also read on the unrooted tree away from an outgroup tip (outgroup_name); optional "
+                 "second overlapping override, constant override, is_independent, shared length, and update; "
+                 "set_time_heterogeneity over pairs of edge sets (exclude_params, is_independent, no edge sets)",
         "rule": "as nucleotide",
     },
     "bins": {
@@ -1085,8 +1136,9 @@ BOUNDED = {
                       "recalculation.definition.GammaDefn / MonotonicDefn",
                       "LikelihoodFunction._getLikelihoodValuesSummedAcrossAnyBins"],
         "bound": "4 trees (2-4 tips) x HKY85 GTR GN F81 JC69 x 2 and 4 bins (3 in thorough) x {gamma rates with shape "
-                 "0.3/1/4, free ordered rates (2 partitions), a rate parameter per bin} x equal / unequal bin "
-                 "probabilities; all columns over ACGTNRY- (every 5th for 4 tips)",
+                 "0.3/1/4, free ordered rates (2 partitions), a rate parameter per bin, an ordered_param / "
+                 "partitioned_params rate parameter (bin factor x per-edge value)} x equal / unequal bin probabilities; "
+                 "all columns over ACGTNRY- (every 5th for 4 tips)",
         "rule": "as nucleotide",
     },
     "dinucleotide": {
@@ -1102,9 +1154,10 @@ BOUNDED = {
         "gen": gen_codon, "contract": contract_codon, "shards": 16,
         "functions": ["substitution_model.TimeReversibleCodon", "ns_substitution_model.NonReversibleCodon",
                       "models.MG94HKY MG94GTR GY94 Y98 CNFGTR CNFHKY GNC", "motif_prob_model.*"],
-        "bound": "quick: MG94HKY, CNFGTR on a 3-tip tree; thorough: 7 codon models x 3 trees (2-4 tips, one zero "
-                 "length) x 2 motif-probability vectors x omega {0.25,2} with optional per-edge omega and update, plus "
-                 "two-bin omega site classes; columns over 61 codons + ACN TAN --- A-G RTG NNN TGY (strided)",
+        "bound": "quick: MG94HKY, CNFGTR on a 3-tip tree; thorough: 7 codon models + MG94HKY, GY94 under genetic code 2 "
+                 "x 3 trees (2-4 tips, one zero length) x 3 motif-probability vectors x omega {0.25,2} with optional "
+                 "per-edge omega and update, plus two-bin omega site classes; columns over the sense codons + ACN TAN "
+                 "--- A-G RTG NNN TGY (strided)",
         "rule": "as nucleotide",
     },
     "protein": {
